@@ -9,8 +9,81 @@
   anything else                             -> bad-op
 -/
 import Vita.C13.Gen
+import Vita.C13.GenExt
+import Vita.C13.Mini
 import Vita.C13.Wire
 open Vita Vita.Wire
+
+/-- the bodies of the other symbol kinds (GenExt.lean), under the names the harness uses:
+    `var<k>` reads the k-th value of the line as the example, `cdbl` uses the parameter as the constant,
+    `cint` / `cstr` use the first value -/
+def extBody (name : String) (par : Float) (xs : List (Val Float)) : Option (Prog Float (Val Float)) :=
+  match name with
+  | "bzero" => some Vita.C13.GenExt.boolean_zeroP
+  | "bone" => some Vita.C13.GenExt.boolean_oneP
+  | "band" => some Vita.C13.GenExt.boolean_l_andP
+  | "bnot" => some Vita.C13.GenExt.boolean_l_notP
+  | "bor" => some Vita.C13.GenExt.boolean_l_orP
+  | "cdbl" => some (Vita.C13.GenExt.constant_doubleP par)
+  | "cint" => match xs.head? with
+    | some (.int n) => some (Vita.C13.GenExt.constant_intP n)
+    | _ => none
+  | "cstr" => match xs.head? with
+    | some (.str t) => some (Vita.C13.GenExt.constant_stringP t)
+    | _ => none
+  | _ =>
+    if name.startsWith "var" then (name.drop 3).toNat?.map fun k => Vita.C13.GenExt.variableP k else none
+
+def extNames : List String := ["bzero", "bone", "band", "bnot", "bor", "cdbl", "cint", "cstr", "var"]
+
+/-- elementary facts of `CoreLaws`, evaluated on hardware doubles (a test of the hypotheses) -/
+def coreFailures (x y z : Float) : List String :=
+  let fin := FloatOps.isFinite (F := Float)
+  let le := FloatOps.le (F := Float)
+  let neg := FloatOps.neg (F := Float)
+  let zero : Float := FloatOps.zero
+  let one : Float := FloatOps.one
+  let imp (a b : Bool) : Bool := !a || b
+  let d := FloatOps.div x y
+  let chk : List (String × Bool) := [
+    ("zero_fin", fin zero), ("one_fin", fin one),
+    ("neg_fin", imp (fin x) (fin (neg x))),
+    ("fabs_cases", (FloatOps.fabs x).toBits == x.toBits || (FloatOps.fabs x).toBits == (neg x).toBits || x.isNaN),
+    ("le_trans", imp (le x y && le y z) (le x z)),
+    ("le_total_fin", imp (fin x && fin y) (le x y || le y x)),
+    ("between_fin", imp (fin x && fin z && le x y && le y z) (fin y)),
+    ("neg_antitone", imp (le x y) (le (neg y) (neg x))),
+    ("neg_zero_le", le (neg zero) zero),
+    ("one_add_mono", imp (le x y) (le (FloatOps.add one x) (FloatOps.add one y))),
+    ("one_add_zero", (FloatOps.add one zero).toBits == one.toBits),
+    ("two_fin", fin (FloatOps.add one one)),
+    ("div_shrinks", imp (fin x && le one y)
+      (imp (le zero x) (le zero d && le d x) && imp (le x zero) (le x d && le d zero))),
+    ("sin_range", imp (fin x) (le (neg one) (FloatOps.sin x) && le (FloatOps.sin x) one)),
+    ("cos_range", imp (fin x) (le (neg one) (FloatOps.cos x) && le (FloatOps.cos x) one)),
+    ("sqrt_range", imp (fin x && !(FloatOps.lt x zero))
+      (le zero (FloatOps.sqrt x) && (le (FloatOps.sqrt x) x || le (FloatOps.sqrt x) one))),
+    ("exp_range", imp (fin x && le x zero) (le zero (FloatOps.exp x) && le (FloatOps.exp x) one)),
+    ("ofInt_fin", fin (FloatOps.ofInt (x.toInt32.toInt) : Float))]
+  (chk.filter fun p => !p.2).map (·.1)
+
+/-- one operation of the 6-bit format (`mini <op> a b`, bit patterns 0..63) -/
+def miniOp (op : String) (a b : Nat) : String :=
+  let x : Vita.C13.Mini := ⟨⟨a % 64, by omega⟩⟩
+  let y : Vita.C13.Mini := ⟨⟨b % 64, by omega⟩⟩
+  let bit (v : Bool) : String := if v then "1" else "0"
+  let res (v : Vita.C13.Mini) : String := if v.isNaN then "nan" else toString v.b.val
+  match op with
+  | "add" => res (FloatOps.add x y) | "sub" => res (FloatOps.sub x y)
+  | "mul" => res (FloatOps.mul x y) | "div" => res (FloatOps.div x y)
+  | "neg" => res (FloatOps.neg x) | "fabs" => res (FloatOps.fabs x)
+  | "floor" => res (FloatOps.floor x) | "sqrt" => res (FloatOps.sqrt x)
+  | "log" => res (FloatOps.log x) | "exp" => res (FloatOps.exp x)
+  | "sin" => res (FloatOps.sin x) | "cos" => res (FloatOps.cos x)
+  | "fmod" => res (FloatOps.fmod x y) | "fmin" => res (FloatOps.fmin x y) | "fmax" => res (FloatOps.fmax x y)
+  | "isfinite" => bit (FloatOps.isFinite x)
+  | "lt" => bit (FloatOps.lt x y) | "le" => bit (FloatOps.le x y) | "eq" => bit (FloatOps.eq x y)
+  | _ => "bad-op"
 
 def fbits? (s : String) : Option Float := (hexNat? s).map fun n => Float.ofBits (UInt64.ofNat n)
 
@@ -55,15 +128,43 @@ def lawFailures (x d : Float) : List String :=
 
 def answer (line : String) : String :=
   match (line.trimAscii.toString.splitOn " ").filter (· ≠ "") with
-  | ["names"] => " ".intercalate Vita.C13.Gen.names
+  | ["names"] => " ".intercalate (Vita.C13.Gen.names ++ extNames)
+  | ["classes"] => " ".intercalate (Vita.C13.GenExt.classes.map (·.1))
   | "run" :: name :: par :: vs =>
-    match (Vita.C13.Gen.prims (F := Float)).lookup name, fbits? par, vs.mapM decodeVal? with
-    | some p, some q, some xs =>
+    match fbits? par, vs.mapM decodeVal? with
+    | some q, some xs =>
+     match ((Vita.C13.Gen.prims (F := Float)).lookup name).orElse (fun _ => extBody name q xs) with
+     | none => "bad-op"
+     | some p =>
       let argv : Nat → Option (Val Float) := fun i => some (xs.getD i .void)
-      let vars : Nat → Val Float := fun _ => .void
+      let vars : Nat → Val Float := fun i => xs.getD i .void
       let r := p.runPure argv q vars
       let asked := p.asked argv q vars
       encodeOut r ++ " " ++ (if asked.isEmpty then "-" else ",".intercalate (asked.map toString))
+    | _, _ => "bad-op"
+  | ["init", "real", a, b, r] =>
+    match fbits? a, fbits? b, fbits? r with
+    | some x, some y, some z => toHex16 (Vita.C13.GenExt.real_realInit (fun _ _ => z) x y).toBits
+    | _, _, _ => "bad-op"
+  | ["init", "integer", a, b, r] =>
+    match a.toInt?, b.toInt?, r.toInt? with
+    | some x, some y, some z => toHex16 (Vita.C13.GenExt.real_integerInit (F := Float) (fun _ _ => z) x y).toBits
+    | _, _, _ => "bad-op"
+  | ["pen", a, b, c, d] =>
+    match a.toNat?, b.toNat?, c.toNat?, d.toNat? with
+    | some a, some b, some c, some d =>
+      toHex16 (Vita.C13.GenExt.compPenalty (F := Float) (fun i => [a, b, c, d].getD i 0)).toBits
+    | _, _, _, _ => "bad-op"
+  | ["mini", op, a, b] =>
+    match a.toNat?, b.toNat? with
+    | some x, some y => miniOp op x y
+    | _, _ => "bad-op"
+  | ["core", a, b, c] =>
+    match fbits? a, fbits? b, fbits? c with
+    | some x, some y, some z =>
+      match coreFailures x y z with
+      | [] => "ok"
+      | fs => "fail:" ++ ",".intercalate fs
     | _, _, _ => "bad-op"
   | ["fn", op, a, b] =>
     match fbits? a, fbits? b with
